@@ -247,6 +247,17 @@ func initArrayList() {
 		},
 	)
 	Alias(c, "<<@", "pop")
+	Def(
+		c,
+		"clear",
+		func(vm *Thread, args []value.Value) (value.Value, value.Value) {
+			self := args[0].AsReference().(value.ArrayList)
+			for i := self.Length() - 1; i >= 0; i-- {
+				self.RemoveAt(i)
+			}
+			return value.Nil, value.Undefined
+		},
+	)
 
 	Def(
 		c,
